@@ -41,6 +41,10 @@ def cases_chain(tier):
                 # history: the chain below the outermost plan has already emitted events on its own, then it is nested under
                 # the outermost plan (set_parent on the plan at the top of the sub-chain, as a running optimizer step does)
                 yield "depth=%d/handlers=%d/sub-chain-emitted-before-it-was-nested" % (depth, nh), {"depth": depth, "nh": nh, "late_root": True}
+    # the nested plans are built on their OWN optimizer context (another evaluator): the events still end at the observers of the
+    # outermost plan's context, and only there
+    for depth in (2, 3):
+        yield "depth=%d/handlers=1/inner-plans-have-their-own-context" % depth, {"depth": depth, "nh": 1, "own_context": True}
     # the induction step, for a chain of ANY depth: a plan with an arbitrary parent delivers the event to its own handlers, then
     # hands the same event to the parent exactly once (whose own delivery is this very contract), and calls no observer itself
     for nh in (0, 1, 2):
@@ -87,8 +91,13 @@ def scn_chain(T, case):
         T.prove("C15.emit.induction_step.own_handlers_then_the_parent_once_and_no_observer_called_directly",
                 [n for n, _ in log] == ["plan0-handler%d" % k for k in range(case["nh"])] + ["parent.emit_event"] and all(e is ev for _, e in log))
         return
+    inner_ctx = None
+    if case.get("own_context"):
+        inner_ctx = ctx_cls(evaluator=None, plugin_manager=types.SimpleNamespace())
+        for e in EventType:
+            inner_ctx.add_observer(e, stepflow.Recorder("observer-of-an-inner-context-%s" % e.name, log))
     for d in range(case["depth"]):
-        p = plan_cls(octx, None if (case.get("late_root") and d == 1) else parent)
+        p = plan_cls(octx if (d == 0 or inner_ctx is None) else inner_ctx, None if (case.get("late_root") and d == 1) else parent)
         p._handlers = {"h%d" % k: stepflow.Recorder("plan%d-handler%d" % (d, k), log) for k in range(case["nh"])}
         plans.append(p)
         parent = p
